@@ -129,6 +129,48 @@ prop("C13", "keep-alive detects a silent peer and only a silent peer", "fault_en
      assumptions=["the scripted Client decides the outcome of each ping, so machine load cannot turn 'answered' into 'late'",
                   "timers and tickers never fire early (monotonic clock)"])
 
+E4RULE = 'Cases are rapid-generated (request history x fault plan x configuration) and run against the real ReconnectClient over an in-memory transport whose broker model processes every client packet synchronously; fault positions are structural (cut before/after the j-th packet or the n-th packet of a type on connection c, refused / absent CONNACK, dial error, held dialler = outage), so a case is a value that replays. '
+
+prop("C01", "no accepted QoS>=1 publish / subscribe / unsubscribe is lost", "fault_enumeration",
+     E4RULE + "C01: 1..14 submits (QoS0/1/2 publishes, subscribe, unsubscribe with unique marker filters) placed before Connect, while "
+     "connected and during held outages, 0..6 faults piled on successive connections. Oracle at quiescence (queues empty): every "
+     "request the API accepted has an acknowledgement (PUBACK/PUBCOMP/SUBACK/UNSUBACK) that the broker made readable on a "
+     "connection not cut at that packet; a client idle for 3 s with work undone on a reachable broker is a violation (stuck "
+     "detector), a budget hit while still progressing is inconclusive. Non-trivial = a fault fired while >= 1 accepted QoS>=1 "
+     "request was unacknowledged, or a request was submitted before the first connection / during an outage; distinct = FNV-64 "
+     "of the case JSON.",
+     [dict(tests="^TestVerifC01_NoLoss$", checks_quick=2500, checks_thorough=12000, shards=16)],
+     assumptions=["ResponseTimeout 0, keep-alive off, Disconnect never called, Transport.Write never returns io.EOF (the property's stated assumptions)",
+                  "the broker eventually stays reachable: every fault fires at most once"])
+
+prop("C02", "QoS 2 delivered onward exactly once across reconnects", "fault_enumeration",
+     E4RULE + "C02: persistent session (cleanSession=false, session kept), receiver method A and B, QoS2-heavy histories, cuts biased to "
+     "before/after PUBLISH, PUBREL (i.e. lost PUBREC / PUBCOMP) and CONNECT on successive connections. Oracle: (1) at quiescence "
+     "each accepted QoS2 message is in the delivery log exactly once; (2) once PUBCOMP for a message was provably consumed (the "
+     "client wrote another packet on that connection afterwards, or it was still up at quiescence) no PUBLISH with its tag and no "
+     "PUBREL with its id is ever emitted again. Non-trivial = a cut fired between the first PUBLISH and the PUBCOMP of a QoS2 "
+     "message; distinct = FNV-64 of the case JSON.",
+     [dict(tests="^TestVerifC02_ExactlyOnce$", checks_quick=3000, checks_thorough=15000, shards=16)],
+     assumptions=["broker follows MQTT-4.3.3 receiver rules and keeps session state", "one request outstanding at a time in the task goroutine (keep-alive off, DirectlyPublishQoS0 off)"])
+
+prop("C03", "submission order on the wire, also when retransmitted", "fault_enumeration",
+     E4RULE + "C03: one submitting goroutine, queued publishing mode. Oracle: per connection the PUBLISH packets of different messages "
+     "are in submission order; over the run the first emissions of requests (PUBLISH/SUBSCRIBE/UNSUBSCRIBE, delivered or lost) "
+     "are in submission order; first deliveries of QoS>=1 messages are in submission order. Non-trivial = >= 2 QoS>=1 requests "
+     "pending at a fired fault; distinct = FNV-64 of the case JSON.",
+     [dict(tests="^TestVerifC03_Order$", checks_quick=2500, checks_thorough=12000, shards=16)],
+     assumptions=["DirectlyPublishQoS0 off (the default mode the property is about)", "connections fail only by closing / refusal / dial errors"])
+
+prop("C12", "retransmissions are faithful", "fault_enumeration",
+     E4RULE + "C12: QoS1/QoS2 messages with random topic/payload/retain and caller-chosen or allocated ids, 1..3 retransmissions through "
+     "cuts at every step; separately the base client's ErrorWithRetry handle driven through 1..5 interrupted fresh clients. Oracle "
+     "over everything passed to Transport.Write (delivered or lost): first PUBLISH of a message DUP=0, later ones DUP=1 and "
+     "identical in id/topic/payload/QoS/retain; QoS0 at most once; no PUBLISH after a PUBREL that was written successfully. "
+     "Non-trivial = a message was emitted >= 2 times; distinct = FNV-64 of the case JSON.",
+     [dict(tests="^TestVerifC12_Retransmit$", checks_quick=2500, checks_thorough=12000, shards=12),
+      dict(tests="^TestVerifC12_RetryHandle$", checks_quick=2500, checks_thorough=25000, shards=4)],
+     assumptions=["a PUBREL whose Write failed does not count as sent for the 'no PUBLISH after PUBREL' rule"])
+
 # ---------------------------------------------------------------------------------------------
 # texts for MANIFEST.json (tools/gen_manifest.py)
 
@@ -202,3 +244,20 @@ mtext("C13", "scripted Client mock (part 1) + E4 broker model going silent (part
       "lower bounds on a monotonic clock, so load cannot cause a false alarm. Sampling of the schedule space.",
       "mock Client mimics BaseClient.Ping's error wrapping for a finished context",
       "DESIGN.md section 4 / C13")
+
+E4NOTE = "in-memory transport honours io.ReadWriteCloser; broker model is instantaneous (processes inside Write); liveness decided by a stuck detector (3 s of global silence), never by a timeout"
+mtext("C01", "E4 history runner + E3 broker model",
+      "rapid stateful/fault-injection property test; oracle = every accepted request acknowledged in the broker trace at quiescence + stuck detector",
+      "Fault-plan sampling with structural cut points on the real client; each case is deterministic up to goroutine interleaving. Bounded "
+      "liveness: reached quiescence, or provably idle with work undone. No completeness claim.", E4NOTE, "DESIGN.md section 4 / C01")
+mtext("C02", "E4 history runner + E3 broker model (methods A and B)",
+      "rapid fault-injection property test; oracle = delivery count per message == 1 and silence after a consumed PUBCOMP",
+      "Sampling of cut sequences around the four packets of the QoS2 exchange on successive connections, for both receiver methods.",
+      E4NOTE, "DESIGN.md section 4 / C02")
+mtext("C03", "E4 history runner + E3 broker model",
+      "rapid fault-injection property test; oracle = monotonic submission index on every connection, over first emissions and over first deliveries",
+      "Sampling of histories and cut sequences from one submitting goroutine; every connection of a run is checked.", E4NOTE, "DESIGN.md section 4 / C03")
+mtext("C12", "E4 history runner + E3 broker model; E5 for the retry handle",
+      "rapid fault-injection property tests; oracle = invariant over all PUBLISH/PUBREL emissions of a message",
+      "Sampling of messages and cut sequences; the oracle reads everything handed to Transport.Write, including writes that failed.",
+      E4NOTE, "DESIGN.md section 4 / C12")
